@@ -150,6 +150,10 @@ fn collide_kind(a: &[u8], b: &[u8]) -> &'static str {
     if hmac_key_norm(a) == hmac_key_norm(b) { "keys-collide-hmac-key-normalisation" } else { "keys-collide-across-ids" }
 }
 
+fn id_hex(id: &[u8]) -> String {
+    hx(id)
+}
+
 fn le_chan_id(peer: &[u8], dbid: u64) -> Vec<u8> {
     let mut v = peer.to_vec();
     v.extend_from_slice(&dbid.to_le_bytes());
@@ -206,7 +210,7 @@ impl Group for C18Unit {
                 "hkdf32 01 02 03".to_string(),
                 format!("hkdf32 {} {} {}", s2, hx(b"per-peer seed"), s1),
                 format!("native_keys {} testnet {}", s1, s1),
-                format!("ldk_keys {} testnet {} {}", s1, s1, ldk_oracle(&[1u8; 32], Network::Testnet, &[1u8; 32]).unwrap()),
+                format!("ldk_keys {} testnet {} {}", s1, s1, ldk_oracle(&[1u8; 32], Network::Testnet, &[1u8; 32]).unwrap_or("0:00".into())),
                 format!("commit_secret {} 281474976710655", z),
                 format!("commit_secret {} 281474976710655", ff),
                 format!("commit_secret {} 187649984473770", ff),
@@ -300,7 +304,15 @@ impl Group for C18Unit {
                     (Some(seed), Some(net), Some(id)) => {
                         let style = if *k == "native_keys" { KeyDerivationStyle::Native } else { KeyDerivationStyle::Ldk };
                         match derive_material(style, &seed, net, &id, 0) {
-                            Err(e) => { co.tags.insert(format!("{}:panic", k)); e }
+                            Err(e) => {
+                                co.tags.insert(format!("{}:panic", k));
+                                co.violations.push(Violation {
+                                    kind: "derivation-panicked".into(),
+                                    desc: format!("{} panicked for seed {} id {}", k, s, id_hex(&id)),
+                                    at: i,
+                                });
+                                e
+                            }
                             Ok((base, m)) => {
                                 saw_keys = true;
                                 co.tags.insert(format!("{}:idlen{}", k, id.len()));
@@ -411,6 +423,8 @@ struct Live {
     cfgkey: String,
     /// ids created by new_channel_with_random_id on this store
     random_ids: Vec<ChannelId>,
+    /// every id under which a channel of this store was reachable: lookup id -> (id0, ready)
+    known: std::cell::RefCell<BTreeMap<Vec<u8>, (Vec<u8>, bool)>>,
 }
 
 #[derive(Default)]
@@ -461,7 +475,17 @@ impl<'a> Mon<'a> {
         let id0 = slot.id().inner().clone();
         let (mat, secs, from_secrets) = with_keys(&slot, |k, _| (material(k), secrets_of(k), pubs_from_secrets(k)));
         let base = pubs(&slot.get_channel_basepoints());
+        let ready = matches!(&*slot, ChannelSlot::Ready(_));
         drop(slot);
+        live.known.borrow_mut().insert(id.inner().clone(), (id0.clone(), ready));
+        // the six secrets and the keys id of one channel are pairwise different
+        for (i, (na, a)) in secs.iter().enumerate() {
+            for (nb, b) in secs.iter().skip(i + 1) {
+                if a == b {
+                    self.fire("keys-reused-within-channel", format!("{}: channel {} uses the same value {} as {} and as {}", how, hx(&id0), hx(a), na, nb));
+                }
+            }
+        }
         if base != from_secrets {
             self.fire("public-keys-not-from-secrets", format!("{}: channel {} basepoints {} but secrets give {}", how, hx(&id0), base, from_secrets));
         }
@@ -489,6 +513,26 @@ impl<'a> Mon<'a> {
             let (om, ob) = l.obs.clone().unwrap();
             if om != mat || ob != base {
                 self.fire("keys-depend-on-history", format!("{}: channel {} under {} had {} {} and now has {} {}", how, hx(&id0), live.cfgkey, om, ob, mat, base));
+            }
+        }
+    }
+
+    /// after a restart every id under which a channel was reachable before still leads to a channel
+    /// with the same id0 (the ledger key of its keys) and a ready channel is still ready
+    fn identity_after_restart(&mut self, live: &Live) {
+        let known: Vec<(Vec<u8>, (Vec<u8>, bool))> = live.known.borrow().iter().map(|(k, v)| (k.clone(), v.clone())).collect();
+        for (lookup, (id0, ready)) in known {
+            match live.node.get_channel(&ChannelId::new(&lookup)) {
+                Err(_) => self.fire("channel-identity-changed-on-restart", format!("channel {} (id0 {}) is not reachable under that id after the restart", hx(&lookup), hx(&id0))),
+                Ok(slot) => {
+                    let s = slot.lock().unwrap();
+                    let now0 = s.id().inner().clone();
+                    let now_ready = matches!(&*s, ChannelSlot::Ready(_));
+                    drop(s);
+                    if now0 != id0 || (ready && !now_ready) {
+                        self.fire("channel-identity-changed-on-restart", format!("id {} led to channel id0 {} (ready={}) before the restart and to id0 {} (ready={}) after it", hx(&lookup), hx(&id0), ready, hx(&now0), now_ready));
+                    }
+                }
             }
         }
     }
@@ -677,15 +721,27 @@ impl C18Node {
         persister.new_node(&n.get_id(), &config, &*n.get_state()).unwrap();
         persister.new_tracker(&n.get_id(), &n.get_tracker()).unwrap();
         n.add_allowlist(&[]).unwrap();
-        Live { node: n, persister, style, seed: seed.to_vec(), net, cfgkey: format!("{} {} {}", style, hx(seed), net), random_ids: vec![] }
+        Live { node: n, persister, style, seed: seed.to_vec(), net, cfgkey: format!("{} {} {}", style, hx(seed), net), random_ids: vec![], known: Default::default() }
     }
 
-    fn restart(live: Live, inst: u64) -> Live {
-        let Live { node, persister, style, seed, net, cfgkey, random_ids } = live;
+    /// `Err(reason)` when the node does not come back from its own persisted state
+    fn restart(live: Live, inst: u64) -> Result<Live, String> {
+        let Live { node, persister, style, seed, net, cfgkey, random_ids, known } = live;
         drop(node);
-        let (node_id, entry) = persister.get_nodes().unwrap().into_iter().next().unwrap();
-        let n = Node::restore_node(&node_id, entry, &seed, services(persister.clone(), net, inst)).unwrap();
-        Live { node: n, persister, style, seed, net, cfgkey, random_ids }
+        let p2 = persister.clone();
+        let seed2 = seed.clone();
+        let r = std::panic::catch_unwind(std::panic::AssertUnwindSafe(move || {
+            let (node_id, entry) = p2.get_nodes().unwrap().into_iter().next().unwrap();
+            Node::restore_node(&node_id, entry, &seed2, services(p2.clone(), net, inst))
+        }));
+        match r {
+            Ok(Ok(n)) => Ok(Live { node: n, persister, style, seed, net, cfgkey, random_ids, known }),
+            Ok(Err(e)) => Err(format!("restore_node refused: {}", e.message())),
+            Err(e) => Err(format!(
+                "restore_node panicked: {}",
+                e.downcast_ref::<String>().cloned().or_else(|| e.downcast_ref::<&str>().map(|s| s.to_string())).unwrap_or_default().replace('\n', " ")
+            )),
+        }
     }
 }
 
@@ -693,8 +749,8 @@ impl Group for C18Node {
     fn property(&self) -> &'static str { "C18" }
     fn model(&self) -> Option<&'static str> { Some("keys") }
     fn rule(&self) -> &'static str {
-        "node: real Node (random 32-byte seed, Native or Ldk, testnet/regtest/signet/bitcoin), a pool of 2-5 channel \
-         identities (random peer id, dbid from {1, 2, small, 2^32 region, u64::MAX region}) created through \
+        "node: real Node (random 32-byte seed, Native or Ldk, testnet/regtest/signet/bitcoin), a pool of 2-6 channel \
+         identities (random peer id, near-miss twins: same peer with dbid differing only in bit 32 or 56, same dbid under a peer differing in one bit; dbid from {1, 2, small, 2^32 region, u64::MAX region}) created through \
          Node::new_channel in random order and subsets, interleaved with new_channel_with_random_id, setup_channel \
          (random value, optionally with a permanent id), real validate+revoke steps (counterparty-signed holder \
          commitments), per-commitment queries around next_holder_commit_num (0, next-1..next+2, 2^48-1, 2^48), restarts \
@@ -712,7 +768,7 @@ impl Group for C18Node {
             let sb = [7u8; 32];
             let o = |peer: &str, dbid: u64| -> String {
                 if style == "l" {
-                    format!(" {}", ldk_oracle(&sb, Network::Testnet, &le_chan_id(&hex::decode(peer).unwrap(), dbid)).unwrap())
+                    ldk_oracle(&sb, Network::Testnet, &le_chan_id(&hex::decode(peer).unwrap(), dbid)).map(|o| format!(" {}", o)).unwrap_or_default()
                 } else { String::new() }
             };
             v.push(vec![
@@ -789,6 +845,20 @@ impl Group for C18Node {
             let peer = if rng.chance(1, 2) { shared_peer.clone() } else { let mut p = rng.bytes(33); p[0] = 2 + (p[0] & 1); p };
             if !pool.iter().any(|(d, p)| *d == dbid && *p == peer) {
                 pool.push((dbid, peer));
+            }
+        }
+        // near-miss identities: same peer with the dbid differing only above bit 32 / in the top byte,
+        // and the same dbid under another peer
+        if rng.chance(1, 2) && !pool.is_empty() {
+            let (d, p) = pool[rng.below(pool.len() as u64) as usize].clone();
+            let twin = match rng.below(4) {
+                0 => (d ^ (1u64 << 32), p.clone()),
+                1 => (d ^ (1u64 << 56), p.clone()),
+                2 => (d, { let mut q = p.clone(); q[32] ^= 1; q }),
+                _ => (d, { let mut q = p.clone(); q[1] ^= 0x80; q }),
+            };
+            if twin.0 != 0 && !pool.contains(&twin) && pool.len() < 6 {
+                pool.push(twin);
             }
         }
         let new_line = |dbid: u64, peer: &[u8]| -> String {
@@ -973,9 +1043,22 @@ impl Group for C18Node {
                     (Ok(dbid), Some(peer), Some(l)) if peer.len() == 33 => {
                         let mut p = [0u8; 33];
                         p.copy_from_slice(&peer);
-                        match l.node.new_channel(dbid, &p, &l.node) {
-                            Err(_) => { mon.co.tags.insert("new:err".into()); "err".into() }
-                            Ok((id, slot)) => {
+                        let created = std::panic::catch_unwind(std::panic::AssertUnwindSafe(|| l.node.new_channel(dbid, &p, &l.node)));
+                        match created {
+                            Err(e) => {
+                                // the derivation must be total on the ids the node itself builds
+                                // (Lean: C18_ldk_no_panic); the node's locks are poisoned now
+                                let why = e.downcast_ref::<String>().cloned().or_else(|| e.downcast_ref::<&str>().map(|s| s.to_string())).unwrap_or_default();
+                                mon.fire("derivation-panicked", format!("new_channel({}, {}) under {} panicked: {}", dbid, hx(&peer), l.cfgkey, why.replace('\n', " ")));
+                                live = None;
+                                co.out.push("panic".into());
+                                continue;
+                            }
+                            Ok(Err(_)) => { mon.co.tags.insert("new:err".into()); "err".into() }
+                            Ok(Ok((id, slot))) => {
+                                if *id.inner() != le_chan_id(&peer, dbid) {
+                                    mon.fire("channel-id-not-from-request", format!("new_channel({}, {}) returned channel id {}", dbid, hx(&peer), hx(id.inner())));
+                                }
                                 ids_seen.insert(id.inner().clone());
                                 mon.co.tags.insert(format!("new:{}", l.style));
                                 let m = slot.as_ref().map(|s| with_keys(s, |k, _| material(k))).unwrap_or("no-slot".into());
@@ -1176,9 +1259,20 @@ impl Group for C18Node {
                 ["restart"] => match live.take() {
                     Some(l) => {
                         reinst += 1;
-                        let l2 = C18Node::restart(l, inst);
+                        let cfg = l.cfgkey.clone();
+                        let l2 = match C18Node::restart(l, inst) {
+                            Ok(l2) => l2,
+                            Err(why) => {
+                                // the node derives its identity and keys from the seed alone: it must
+                                // accept the state it persisted itself
+                                mon.fire("restart-failed", format!("node {} does not come back from its own store: {}", cfg, why));
+                                co.out.push("restart-failed".into());
+                                continue;
+                            }
+                        };
                         inst += 1;
                         mon.co.tags.insert("restart".into());
+                        mon.identity_after_restart(&l2);
                         mon.observe_all(&l2, "after restart");
                         // re-check every per-commitment value recorded so far for channels of this node
                         let ids: Vec<ChannelId> = l2.node.get_channels().keys().cloned().collect();
